@@ -61,6 +61,12 @@ theorem c10_add_preserves (d : Doc) (abbr url : String) (h : NsInv d.namespaces)
         · rename_i hnone
           exact nsInv_append_fresh h (c10_fresh url d.namespaces).1 (fun x hx => by simpa [mkNs] using find_none_uri hnone x hx)
 
+/-- `add_default_namespace` allocates nothing: the default namespace gets no abbreviation of its own -/
+theorem c10_default_preserves (d : Doc) (url : String) :
+    (d.addDefaultNamespace url).namespaces = d.namespaces := by
+  unfold Doc.addDefaultNamespace
+  split <;> rfl
+
 /-- `switch_to_target_namespace` keeps the invariant (a new target namespace is abbreviated against
     *all* known namespaces) -/
 theorem c10_switch_preserves (d : Doc) (ns : String) (h : NsInv d.namespaces) :
@@ -82,7 +88,7 @@ theorem c10_collect_preserves (nss : List (Option String × String)) (d : Doc) (
     simp only [List.foldl_cons]
     apply ih
     cases pu.1 with
-    | none => exact h
+    | none => rw [c10_default_preserves]; exact h
     | some a => exact c10_add_preserves d a pu.2 h
 
 theorem extendNoDuplicates_subset (me other : List Ns) : ∀ x ∈ extendNoDuplicates me other, x ∈ me ∨ x ∈ other := by
